@@ -538,7 +538,11 @@ func genC03Step(t *rapid.T, r *c03Run) bson.D {
 		if op != "findOneAndDelete" {
 			st = append(st, bson.E{Key: "upsert", Value: rapid.Bool().Draw(t, "rjups")}, bson.E{Key: "after", Value: rapid.Bool().Draw(t, "rjafter")})
 		}
-		return append(st, bson.E{Key: "proj", Value: rapid.SampledFrom([]bson.D{{{Key: "a", Value: int32(1)}, {Key: "b", Value: int32(0)}}, {{Key: "b", Value: int32(0)}, {Key: "a", Value: true}}, {{Key: "a", Value: "x"}}}).Draw(t, "rjproj")})
+		return append(st, bson.E{Key: "proj", Value: rapid.SampledFrom([]bson.D{{{Key: "a", Value: int32(1)}, {Key: "b", Value: int32(0)}}, {{Key: "b", Value: int32(0)}, {Key: "a", Value: true}}, {{Key: "a", Value: "x"}},
+			// rejected only when the matched document holds documents in the array a / b
+			{{Key: "a", Value: bson.D{{Key: "$elemMatch", Value: bson.D{{Key: "b", Value: bson.D{{Key: "$bogus", Value: int32(1)}}}}}}}},
+			{{Key: "b", Value: bson.D{{Key: "$elemMatch", Value: bson.D{{Key: "b", Value: bson.D{{Key: "$bogus", Value: int32(1)}}}}}}}},
+		}).Draw(t, "rjproj")})
 	}
 	inner := func() bson.D {
 		if rapid.IntRange(0, 999).Draw(t, "rj")%25 == 7 {
